@@ -269,6 +269,10 @@ def run(ctx, chk):
     from . import C02
     imports = () if getattr(chk, '_nested', False) else ((C11, ('C11.P1', 'C11.P2', 'C11.P3', 'C11.P4'), 'C04.T4'), (C03, ('C03.G1',), 'C04.T7'),
                             (C02, ('C02.S3',), 'C04.T7'),
+                            # T9: the segment a stopped daemon leaves behind is what its last write()/new() made it: nothing
+                            # else -- a Drop, a shutdown hook -- stores into the mapping (a header field cleared on the way
+                            # out makes the next daemon judge a valid segment unusable and wipe it)
+                            (C02, ('C02.S4',), 'C04.T9'),
                             (C16, ('C16.V1', 'C16.V2', 'C16.V3'), 'C04.T8'))
     for mod, rules, tag in imports:
         sub = type(chk)('C04', LEVEL, chk.tier)
